@@ -249,3 +249,29 @@ Definition last_gate (r : list cell) : Z :=
   | x :: _ => Z.of_nat x
   | [] => -1
   end.
+
+(* ---- the same as equations between programs (usable after [rs] has exposed the primitive) --------------------- *)
+Lemma py_nth_colsof N R col : (col < N)%nat -> py_nth (colsof N R) (Z.of_nat col) = Ret (col_of R col).
+Proof.
+  intros Hc. rewrite (py_nth_ok _ col []) by (rewrite colsof_length; exact Hc). rewrite colsof_nth by exact Hc. reflexivity.
+Qed.
+
+Lemma py_nth_colsof_0 N R : (1 <= N)%nat -> py_nth (colsof N R) 0 = Ret (col_of R 0).
+Proof. intros H. apply (py_nth_colsof N R 0). lia. Qed.
+
+Lemma py_nth_col_of R col r : (r < length R)%nat ->
+  py_nth (col_of R col) (Z.of_nat r) = Ret (cell_label (nth col (nth r R []) None)).
+Proof.
+  intros Hr. rewrite (py_nth_ok_label _ r) by (rewrite col_of_length; exact Hr). rewrite col_of_nth by exact Hr. reflexivity.
+Qed.
+
+Lemma py_set_col_of R col r v : (r < length R)%nat ->
+  py_set (col_of R col) (Z.of_nat r) v = Ret (upd (col_of R col) r v).
+Proof. intros Hr. apply py_set_nat. rewrite col_of_length. exact Hr. Qed.
+
+Lemma py_set_colsof_upd2 N R col r v : (col < N)%nat -> (r < length R)%nat -> length (nth r R []) = N ->
+  py_set (colsof N R) (Z.of_nat col) (upd (col_of R col) r v) = Ret (colsof N (upd2 R r col (cell_of v))).
+Proof.
+  intros Hc Hr Hw. rewrite py_set_nat by (rewrite colsof_length; exact Hc).
+  rewrite <- (cell_label_cell_of v) at 1. rewrite colsof_upd2 by (try assumption; lia). reflexivity.
+Qed.
